@@ -267,7 +267,7 @@ def int_values(cls, fam, rng, tier, full_f16):
 def generate(rng, tier):
     seen_f16 = set()
     for cls in NUM_CLASSES:
-        name, fam = cls.__name__, D.family(cls)
+        name, fam = cls.__name__, D.FAM[cls.__name__]
         key = (cls.value_min, cls.value_max)
         full_f16 = tier == "thorough" and fam == "f16" and key not in seen_f16
         seen_f16.add(key)
@@ -286,7 +286,7 @@ def generate(rng, tier):
 def run_impl(case):
     _, _op, name, spec = case["op"].split(" ")
     cls = D.BY_NAME[name]
-    fam = D.family(cls)
+    fam = D.FAM[name]
     toks, first = [], None
     for v in expand_values(spec):
         st, p = D.encode(cls, v)
@@ -294,7 +294,7 @@ def run_impl(case):
         if st == "ok":
             _stats["accepted"] += 1
             st2, v2 = D.decode(cls, p)
-            tok = f"{D.payload_canon(p)}>{D.canon(v2) if st2 == 'ok' else st2}"
+            tok = f"{D.payload_canon(p, fam == 'f32')}>{D.canon(v2) if st2 == 'ok' else st2}"
         else:
             tok = st
         toks.append(tok)
@@ -343,6 +343,6 @@ def outcome_class(out):
 
 
 def evidence_extra():
-    unm = sorted({f"{c.__name__}:{D.family(c)}" for c in NUM_CLASSES if D.family(c).startswith("unmodelled")})
+    unm = sorted({f"{c.__name__}:{D.FAM[c.__name__]}" for c in NUM_CLASSES if D.FAM[c.__name__].startswith("unmodelled")})
     return {"value_evaluations": _stats["values"], "values_accepted": _stats["accepted"],
             "classes_covered": len(_stats["classes"]), "classes_total": len(NUM_CLASSES), "unmodelled_classes": unm}
